@@ -335,6 +335,7 @@ func TestVerif_C03(t *testing.T) {
 		r.Finish(0)
 		return
 	}
+	c06Integers(r) // every max-age and every status: Access-Control-Max-Age / status exactly as configured (see c06.go)
 	prod, _ := c02Product()
 	r.Set("configurations", len(prod))
 	cfgStride := pick(r, 7, 1)
